@@ -76,7 +76,7 @@ func runC06(c *ctx) error {
 		if k.kind == "PS512" && rng.Intn(5) != 0 {
 			k = keys[2]
 		}
-		repo := "git@example.com:o/r.git"
+		repo := core.Pick(rng, []string{"git@example.com:o/r.git", "git@example.com:o/r.git", "https://example.com/o/r", "", " "}) // the zero value is a legal argument
 		var penv map[string]string
 		cmds := commandStepsOf(p.Steps)
 		if len(cmds) > 0 {
